@@ -30,6 +30,9 @@ def main():
     try:
         r = subprocess.run(["git", "-C", wt, "apply", "--whitespace=nowarn", os.path.join(sd, "patch.diff")],
                            capture_output=True, text=True)
+        if r.returncode != 0:   # /repo moved on since the seed was confirmed: merge
+            r = subprocess.run(["git", "-C", wt, "apply", "--3way", "--whitespace=nowarn", os.path.join(sd, "patch.diff")],
+                               capture_output=True, text=True)
         if r.returncode != 0:
             print("patch does not apply:", r.stderr)
             return 2
